@@ -10,11 +10,13 @@ namespace c19 {
 enum Kind : int { PUT, GET, CLEAR, OVR_ON, OVR_OFF, NKINDS };
 static const char *kind_name[] = {"put", "get", "clear", "override-on", "override-off"};
 struct Op { int kind; int64_t v; };
-struct Case { int type; size_t cap; std::vector<Op> ops; };   // type 0: octet_ring 1: u32 2: s16
+struct Phase { int kind; size_t count; };
+struct Case { int type; size_t cap; std::vector<Op> ops; std::vector<Phase> phases; };   // type 0: octet_ring 1: u32 2: s16; phases: scripted bulk steps, observed after each phase
 
 inline std::string serialise(const Case &c, size_t upto = (size_t)-1) {
     std::string s = vp::fmt("ring %d %zu\n", c.type, c.cap);
     for (size_t i = 0; i < c.ops.size() && i < upto; i++) s += vp::fmt("%s %lld\n", kind_name[c.ops[i].kind], (long long)c.ops[i].v);
+    for (auto &p : c.phases) s += vp::fmt("phase %s %zu\n", kind_name[p.kind], p.count);
     return s;
 }
 inline bool parse(const std::string &text, Case &c) {
@@ -23,6 +25,7 @@ inline bool parse(const std::string &text, Case &c) {
         auto w = vp::split(l);
         if (w.empty()) continue;
         if (w[0] == "ring" && w.size() == 3) { c.type = atoi(w[1].c_str()); c.cap = strtoull(w[2].c_str(), 0, 10); have = true; continue; }
+        if (w[0] == "phase" && w.size() == 3) { int k = -1; for (int i = 0; i < NKINDS; i++) if (w[1] == kind_name[i]) k = i; if (k < 0) return false; c.phases.push_back({k, (size_t)strtoull(w[2].c_str(), 0, 10)}); continue; }
         int k = -1;
         for (int i = 0; i < NKINDS; i++) if (w[0] == kind_name[i]) k = i;
         if (k < 0 || w.size() < 2) return false;
@@ -77,6 +80,26 @@ template <class R, class T> struct Ring {
         if (n != m.q.size()) return "iter-new-to-old-steps";
         return "";
     }
+    // the same transition without the O(size) observation (for scripted phases at large capacities)
+    std::string step_quiet(Model &m, const Op &op) {
+        switch (op.kind) {
+        case PUT:
+            api.put(&r, (T)op.v);
+            if (m.q.size() < m.cap) m.q.push_back((int64_t)(T)op.v);
+            else if (m.ovr) { m.q.pop_front(); m.q.push_back((int64_t)(T)op.v); }
+            break;
+        case GET: {
+            int64_t got = (int64_t)api.get(&r), want = 0;
+            if (!m.q.empty()) { want = m.q.front(); m.q.pop_front(); }
+            if (got != want) return "get:wrong-element";
+            break;
+        }
+        case CLEAR: api.clear(&r); m.q.clear(); break;
+        case OVR_ON: api.ovr(&r, true); m.ovr = true; break;
+        case OVR_OFF: api.ovr(&r, false); m.ovr = false; break;
+        }
+        return "";
+    }
     std::string step(Model &m, const Op &op) {
         switch (op.kind) {
         case PUT:
@@ -107,6 +130,12 @@ template <class R, class T> std::string run_typed(const Api<R, T> &api, const Ca
     std::string o = ring.observe(m);
     if (!o.empty()) return "init:" + o;
     for (auto &op : c.ops) { std::string r = ring.step(m, op); if (!r.empty()) return r; }
+    uint64_t counter = 1;
+    for (auto &ph : c.phases) {
+        for (size_t i = 0; i < ph.count; i++) { std::string r = ring.step_quiet(m, Op{ph.kind, (int64_t)((counter++ % 250) + 1)}); if (!r.empty()) return "phase:" + r; }
+        std::string o = ring.observe(m);
+        if (!o.empty()) return std::string("phase:") + kind_name[ph.kind] + ":" + o;
+    }
     return "";
 }
 inline std::string run_case(const Case &c) {
